@@ -11,6 +11,13 @@ from ._helpers_rules_c import (
     PathSense, _ann_class, both, call_nodes, calls_ending, cut_edges, cut_normal_out, is_false, is_true,
     kw_or_pos, loc_of, must_pass, outcome, own_calls, rcfg, test_edges,
 )
+from ._helpers_rob_a import normal_form
+
+
+def _nf(ctx, key, *keep, alias="all"):
+    """The anchored function in refactoring-robust normal form (extracted helpers inlined, single-assignment
+    locals resolved; see _helpers_rob_a).  `keep`: the callee names the rule recognises by name."""
+    return normal_form(ctx, ctx.func(key), keep=keep, alias=alias)
 
 R = Registry(
     "C24",
@@ -37,7 +44,7 @@ CHR = "engine/characteristics.py"
 
 # ---------------------------------------------------------------------- C24-R1 (shared with C26-R5)
 def finalize_fairy_reset(ctx):
-    f = ctx.func(f"{POOL}::_finalize_fairy")
+    f = _nf(ctx, f"{POOL}::_finalize_fairy", "checkin", "_reset", "invalidate", alias="dotted")
     g = rcfg(ctx, f)
     ps = PathSense(g)
     ctx.require(len(f.params) >= 2, "_finalize_fairy lost its (dbapi_connection, connection_record) parameters")
@@ -106,7 +113,7 @@ def _style_edges(g, style):
              "transaction_was_reset; under reset_commit do_commit runs; the reset event is dispatched "
              "on every call")
 def r2(ctx):
-    f = ctx.func(f"{POOL}::_ConnectionFairy._reset")
+    f = _nf(ctx, f"{POOL}::_ConnectionFairy._reset", "do_rollback", "do_commit", "reset")
     g = ctx.cfg(f)
     ctx.require("transaction_was_reset" in f.params and "asyncio_safe" in f.params,
                 "_reset lost its transaction_was_reset / asyncio_safe parameters")
@@ -141,7 +148,7 @@ def r2(ctx):
         desc="Connection.close: _close_special(transaction_reset=True) only after self._transaction.close(); "
              "otherwise the pooled connection is closed with a full reset")
 def r3(ctx):
-    f = ctx.func(f"{ENG}::Connection.close")
+    f = _nf(ctx, f"{ENG}::Connection.close", "_close_special", "close", alias="dotted")
     g = ctx.cfg(f)
     ps = PathSense(g)
     special = call_nodes(
@@ -240,7 +247,8 @@ def _covers(fn, expr, param, depth=0):
              "finaliser (also when a later characteristic fails); checkin drains finalize_callback before "
              "_return_conn; __close clears it")
 def r4(ctx):
-    f = ctx.func(f"{DEF}::DefaultDialect._set_connection_characteristics")
+    f = _nf(ctx, f"{DEF}::DefaultDialect._set_connection_characteristics", "set_connection_characteristic",
+            "_reset_characteristics", alias=None)
     g = ctx.cfg(f)
     setc = calls_ending(g, "set_connection_characteristic")
     ctx.require(setc, "no set_connection_characteristic() call in _set_connection_characteristics")
@@ -282,7 +290,7 @@ def r4(ctx):
                   "finaliser registered before any characteristic can be left set", f.loc, bad)
     # the finaliser resets (at least) every name this call applies: its bound argument is the whole collection
     # the set loop is driven by, not a filtered / unrelated one
-    pm = f.module.parents()
+    pm = f.pm
     params = set(f.params) - {"self", "cls"}
     driven = set()
     for n in setc:
@@ -309,7 +317,7 @@ def r4(ctx):
                   + " (a characteristic that is applied may never be reset)",
                   "partial(_reset_characteristics, <the collection being applied>)", f.loc)
     # checkin drains the callbacks before returning the record
-    fc = ctx.func(f"{POOL}::_ConnectionRecord.checkin")
+    fc = _nf(ctx, f"{POOL}::_ConnectionRecord.checkin", "_return_conn", alias=None)
     gc_ = ctx.cfg(fc)
     ret = calls_ending(gc_, "_return_conn")
     ctx.require(ret, "no _return_conn() call in _ConnectionRecord.checkin")
@@ -339,7 +347,7 @@ def r4(ctx):
               "a finaliser popped from finalize_callback is dropped without being called on a live connection",
               "every popped finaliser is called with the DBAPI connection", fc.loc, w)
     # __close discards pending finalisers (the connection they would reset is gone)
-    fx = ctx.func(f"{POOL}::_ConnectionRecord.__close")
+    fx = _nf(ctx, f"{POOL}::_ConnectionRecord.__close", "_close_connection", alias="dotted")
     gx = ctx.cfg(fx)
     clr = call_nodes(gx, lambda nm, c: nm.endswith("finalize_callback.clear"))
     w = must_pass(gx, [gx.entry], [gx.exit], clr, edge_ok=no_exc)
@@ -597,7 +605,23 @@ def _reset_claims(ctx):
         if id(c) not in seen:
             seen.add(id(c))
             uniq.append((fi, c, v))
-    return uniq
+    # the claim is judged in the normal form of its function (helpers inlined, `trans = self._transaction` resolved):
+    # the claim call is looked up again there (a claim inside an extracted helper is found by the package scan above
+    # in the helper itself, which is analysed like any other function)
+    res = []
+    for fi in {id(x[0]): x[0] for x in uniq}.values():
+        keep = {(call_name(c) or "?").rsplit(".", 1)[-1] for f2, c, v in uniq if f2 is fi}
+        nf = normal_form(ctx, fi, keep=keep | {"close"}, alias="dotted", inline=False)
+        for c in calls_in(nf.node):
+            for k in c.keywords:
+                if k.arg in CLAIM_KEYWORDS:
+                    v = k.value
+                    if isinstance(v, ast.Constant) and v.value is False:
+                        continue
+                    if isinstance(v, ast.Name) and v.id in nf.params:
+                        continue
+                    res.append((nf, c, v))
+    return res
 
 
 # floor: today 4 instances (1 claim site + 3 bypass branches); only the claim-site instance is mandatory -- the
@@ -837,3 +861,15 @@ R.mutant("benign-close-impl-renamed-flag", ENG,
          sub("    def _close_impl(self, try_deactivate: bool = False) -> None:\n        try:\n            if self.is_active:\n                self._connection_rollback_impl()\n",
              "    def _close_impl(self, try_deactivate: bool = False) -> None:\n        try:\n            active = self.is_active\n            self.connection._log_debug(\"closing %r\", self) if False else None\n            if self.is_active:\n                self._connection_rollback_impl()\n"),
          None)
+
+# ---- rob-A: the three Connection.close mutants above no longer apply after the `failing COMMIT, then close()` fix
+#      (skip_reset = self._transaction.is_active); same edits against today's text
+R.mutant("close-skip-reset-always-2", ENG,
+         sub("            self._transaction.close()\n        else:\n            skip_reset = False\n",
+             "            self._transaction.close()\n        else:\n            skip_reset = True\n"), "C24-R3")
+R.mutant("close-special-without-transaction-close-2", ENG,
+         sub("            skip_reset = self._transaction.is_active\n            self._transaction.close()\n",
+             "            skip_reset = self._transaction.is_active\n"), "C24-R3")
+R.mutant("close-claims-reset-for-inactive-transaction", ENG,
+         sub("            skip_reset = self._transaction.is_active\n            self._transaction.close()\n",
+             "            skip_reset = True\n            self._transaction.close()\n"), "C24-R6")
